@@ -1,18 +1,14 @@
 import ZenonVerif.Lemmas.KvLogic
+import ZenonVerif.Lemmas.LdbInv
 /-
 C06 — reorganisation leaves no trace. Property theorems only.
 -/
 namespace ZV.C06
-open ZV ZV.Kv ZV.KvLogic
+open ZV ZV.Kv ZV.KvLogic ZV.Versioned
 
 /-- T2 `rollback_exact`: rolling back a commit restores exactly the state before it, for every key:
     applying the undo patch recorded at commit time to the committed state gives the previous state. -/
-theorem rollback_exact (s : Store) (p : Patch) : applyP (applyP s p) (rollbackPatch s p) = s := by
-  funext x
-  rw [rollback_restores]
-  by_cases h : x ∈ keys p
-  · simp [h]
-  · simp [h, applyP_not_mem p s x h]
+theorem rollback_exact (s : Store) (p : Patch) : applyP (applyP s p) (rollbackPatch s p) = s := applyP_undo s p
 
 /-- byte level: the raw frontier after commit + pop abstracts to the frontier before -/
 theorem rollback_exact_raw (r : Raw) (p : Patch) :
@@ -42,6 +38,74 @@ theorem popAll_exact (s : Store) (ps : List Patch) :
 theorem branch_switch (s : Store) (a b : List Patch) :
     commitAll ((undoAll s a).foldl applyP (commitAll s a)) b = commitAll s b := by
   rw [popAll_exact]
+
+
+/-! ### the executable manager: commit + pop leaves no observable trace -/
+
+/-- T1 `pop_add` on the executable manager model. In every reachable state, a commit on the frontier (only the
+    height discipline is assumed: height = frontier height + 1 < 2^64 — the hash may even collide and the
+    operations may touch the bookkeeping keys) followed by a pop gives a state that is observationally equal to
+    the state before: same logical frontier content, same frontier identifier, and for EVERY identifier `Get`
+    answers alike (refused / a view) with views that agree on every lookup and every ordered prefix scan
+    (`ObsEq`, Lemmas/LdbInv.lean). The raw frontier is NOT equal (tombstones of created keys remain). -/
+theorem pop_add {s s1 s2 : Ldb} {h : List Ver} (hr : Reach s h) {id : Id} {ops : Patch}
+    (hok : HOk s.frontierId id) (ha : s.add s.frontierId id ops = some s1) (hp : s1.pop = some s2) :
+    abs s2.frontier = abs s.frontier ∧ s2.frontierId = s.frontierId ∧ ObsEq s s2 := by
+  have hi2 : Inv s2 h := hr.inv.add_pop hok ha hp
+  exact ⟨by rw [hi2.inv0.front, hr.inv.inv0.front], by rw [hi2.inv0.frontierId, hr.inv.inv0.frontierId],
+    hr.inv.obsEq hi2⟩
+
+/-- `pop_add`, spelled out for the versions on the chain: their views read the same before and after -/
+theorem pop_add_views {s s1 s2 : Ldb} {h : List Ver} (hr : Reach s h) {id : Id} {ops : Patch}
+    (hok : HOk s.frontierId id) (ha : s.add s.frontierId id ops = some s1) (hp : s1.pop = some s2) :
+    ∀ v ∈ h, ∃ r r2, s.get v.id = some r ∧ s2.get v.id = some r2 ∧ (∀ k, r.get k = r2.get k) ∧
+      (∀ p, edEntries (r.rawScan p) = edEntries (r2.rawScan p)) := by
+  intro v hv
+  have hi2 : Inv s2 h := hr.inv.add_pop hok ha hp
+  obtain ⟨r, hg, hget, hscan⟩ := hr.inv.view_scan hv
+  obtain ⟨r2, hg2, hget2, hscan2⟩ := hi2.view_scan hv
+  exact ⟨r, r2, hg, hg2, fun k => by rw [hget, hget2], fun p => (hscan p).unique (hscan2 p)⟩
+
+/-- the commit and the pop in `pop_add` cannot fail -/
+theorem pop_add_total {s : Ldb} {h : List Ver} (hr : Reach s h) {id : Id} (ops : Patch)
+    (hok : HOk s.frontierId id) : ∃ s1 s2, s.add s.frontierId id ops = some s1 ∧ s1.pop = some s2 := by
+  obtain ⟨s1, ha⟩ := hr.inv.inv0.add_succeeds id ops
+  obtain ⟨s2, hp⟩ := (hr.inv.inv0.add ops hok ha).pop_succeeds
+  exact ⟨s1, s2, ha, hp⟩
+
+/-- T3 `branch_switch` on the executable manager: whatever route led there (e.g. commit branch A, pop it, commit
+    branch B — versus committing B directly), two reachable states with the same chain of versions are
+    observationally equal: no identifier, key or scan tells them apart. -/
+theorem same_history_same_obs {s t : Ldb} {h : List Ver} (hs : Reach s h) (ht : Reach t h) : ObsEq s t :=
+  hs.inv.obsEq ht.inv
+
+/-- pop returns to the predecessor: content and identifier of the version below -/
+theorem pop_restores {s s' : Ldb} {v : Ver} {h : List Ver} (hr : Reach s (v :: h)) (hp : s.pop = some s') :
+    abs s'.frontier = topStore h ∧ s'.frontierId = topId h :=
+  ⟨(hr.inv.inv0.pop hp).front, (hr.inv.inv0.pop hp).frontierId⟩
+
+/-- nothing to pop on the empty history: refused -/
+theorem pop_empty_refused {s : Ldb} (hr : Reach s []) : s.pop = none := hr.inv.inv0.pop_empty
+
+/-- non-vacuity of `pop_add` and a witness that the RAW frontier differs after commit + pop (a tombstone for the
+    created key stays behind) although nothing observable does -/
+example : ∃ s s1 s2 : Ldb, ∃ h, Reach s h ∧ HOk s.frontierId ⟨2, [8]⟩ ∧
+    s.add s.frontierId ⟨2, [8]⟩ [Op.put [10] [5]] = some s1 ∧ s1.pop = some s2 ∧
+    rget s.frontier [10] = none ∧ rget s2.frontier [10] = some [] := by
+  have r0 := Reach.init
+  obtain ⟨s1, a1⟩ := r0.inv.inv0.add_succeeds ⟨1, [7]⟩ [Op.put [9] []]
+  have r1 := Reach.add (id := ⟨1, [7]⟩) (ops := [Op.put [9] []]) r0
+    ⟨⟨by decide, by decide⟩, by simp, by decide⟩ a1
+  have f1 : s1.frontierId = ⟨1, [7]⟩ := r1.inv.inv0.frontierId
+  have hok : HOk s1.frontierId ⟨2, [8]⟩ := ⟨by rw [f1], by decide⟩
+  obtain ⟨s2, s3, a2, p3⟩ := pop_add_total r1 [Op.put [10] [5]] hok
+  refine ⟨s1, s2, s3, _, r1, hok, a2, p3, ?_, ?_⟩
+  · have e1 := r0.inv.inv0.add_eq _ _ a1
+    subst e1; decide
+  · have e1 := r0.inv.inv0.add_eq _ _ a1
+    have e2 := r1.inv.inv0.add_eq _ _ a2
+    have e3 := (r1.inv.inv0.add _ hok a2).pop_eq p3
+    subst e1; subst e2; subst e3; decide
 
 example : applyP (applyP Store.empty [Op.put [3] [1], Op.del [4]]) (rollbackPatch Store.empty [Op.put [3] [1], Op.del [4]]) [3] = none := by
   decide
